@@ -897,6 +897,8 @@ func body(c *vk.Ctx) {
 	r.largeCases()
 	fmt.Fprintf(os.Stderr, "c07: large cases in %v\n", time.Since(t0).Round(time.Millisecond))
 
+	// first (bounded, and the grid below takes whatever time is left in the thorough tier)
+	r.asymmetric()
 	stopped := false
 	for pi, p := range params {
 		if c.TimeUp() {
@@ -916,9 +918,6 @@ func body(c *vk.Ctx) {
 		c.NotExhaustive("deadline reached before all parameter pairs were enumerated")
 	}
 
-	if !stopped {
-		r.asymmetric()
-	}
 	r.flushViolations()
 	c.Bound("rounds_max", r.maxByDf)
 	if r.st.maxCase != nil {
